@@ -266,7 +266,7 @@ def correspondence(ctx):
         ps = qt.calc_prob_dists(true)
         data = make_data(g, ps, 40, zeros=(t % 2 == 0))
         x = positive_point(g, qt, true)
-        wsel = [None, [], [float(v) for v in g.integers(1, 6, size=S)]][t % 3]
+        wsel = [None, [], [float(v) for v in g.integers(0, 4, size=S)]][t % 3]      # exact zeros included
         l = WRE(qt.num_variables, prob_dists_q=[d[1] for d in data], weights=wsel)
         l.set_func_prob_dists_from_standard_qt(qt)
         terms = []
@@ -332,8 +332,8 @@ def correspondence(ctx):
                  sample={"op": "wiring", "modes": seq, "outcomes": m})
         ctx.count("wiring first mode=" + seq[0])
         # relative entropy wiring
-        cw = [None, [float(v) for v in gw.integers(1, 5, size=S)]][t % 2]
-        ow = [None, [float(v) for v in gw.integers(1, 5, size=S)]][(t // 2) % 2]
+        cw = [None, [float(v) for v in gw.integers(0, 4, size=S)]][t % 2]
+        ow = [None, [float(v) for v in gw.integers(0, 4, size=S)]][(t // 2) % 2]
         data = make_data(gw, ps, 30)
         for fast, cls, ocls in ((False, WRE, WREO), (True, FWRE, FWREO)):
             l = cls(qt.num_variables, prob_dists_q=[d[1] for d in data], weights=cw)
@@ -423,7 +423,9 @@ def check_conf(ctx, kind, flag, m, salt):
     xp = positive_point(g, qt, true)
     pb = _born_at(qt, kind, testers, xp)
     if min(float(np.min(p)) for p in pb) > 0.02:
-        for wsel in (None, [float(v) for v in g.integers(1, 6, size=S)]):
+        wz = [float(v) for v in g.integers(1, 6, size=S)]
+        wz[int(g.integers(0, S))] = 0.0          # a switched-off schedule: exact zero weight
+        for wsel in (None, [float(v) for v in g.integers(1, 6, size=S)], wz):
             l = WRE(nv, prob_dists_q=qs, weights=wsel)
             l.set_func_prob_dists_from_standard_qt(qt); l.set_func_gradient_prob_dists_from_standard_qt(qt)
             l.set_func_hessian_prob_dists_from_standard_qt(qt)
@@ -448,6 +450,70 @@ def check_conf(ctx, kind, flag, m, salt):
             lf.set_func_prob_dists_from_standard_qt(qt); lf.set_func_gradient_prob_dists_from_standard_qt(qt)
             if not close(lf.value(xp), v0, 1e-10) or not np.allclose(lf.gradient(xp), gr, rtol=1e-9, atol=1e-12):
                 ctx.violate(f"C12/fast-wre/equal-weights/{tag}", f"fast value {lf.value(xp)} vs generic {v0} (weights {wsel})", rep)
+    # --- (2b) a SECOND loss object with a different model, evaluated at the bit-identical variable point
+    if kind == "qst":
+        pv = testers["povms"]
+        qt2 = type(qt)([pv[2], pv[0], pv[1]] + list(pv[3:]), on_para_eq_constraint=flag)     # schedule order Z,X,Y
+        testers2 = {"povms": [pv[2], pv[0], pv[1]] + list(pv[3:])}
+    else:
+        qt2, _, testers2 = build_m(ctx.npgen(salt + 7000), kind, flag, m)                    # other testers, same num_variables
+    x2 = None
+    if qt2.num_variables == nv:
+        for mix in (0.0, 0.5, 0.8, 0.95, 1.0):
+            cand = (1 - mix) * xp + mix * _mixed_var(qt)
+            if min(float((q_.calc_matA() @ cand + q_.calc_vecB()).min()) for q_ in (qt, qt2)) > 0.03:
+                x2 = cand
+                break
+    if x2 is not None:
+        data_b = make_data(g, _born_at(qt2, kind, testers2, np.array(true.to_var(), dtype=np.float64)), 50)
+        qs_b = [d[1] for d in data_b]
+        objs = []
+        for qq, dd in ((qt, qs), (qt2, qs_b)):
+            l = WRE(nv, prob_dists_q=dd)
+            l.set_func_prob_dists_from_standard_qt(qq); l.set_func_gradient_prob_dists_from_standard_qt(qq)
+            l.set_func_hessian_prob_dists_from_standard_qt(qq)
+            objs.append((l, qq, dd))
+        xx = x2.copy()
+        for which, (l, qq, dd) in enumerate(objs):      # first object first, then the second at the same bytes
+            gr = l.gradient(xx)
+            Hs = l.hessian(xx) if nv <= 16 else None
+            A_, b_ = qq.calc_matA(), qq.calc_vecB()
+            pvec = A_ @ xx + b_
+            qflat = np.concatenate(dd)
+            gref = -(A_.T @ (qflat / pvec))
+            href = A_.T @ ((qflat / pvec ** 2)[:, None] * A_)
+            lf = FWRE(nv, prob_dists_q=dd)
+            lf.set_func_prob_dists_from_standard_qt(qq); lf.set_func_gradient_prob_dists_from_standard_qt(qq)
+            bad = not np.allclose(gr, gref, rtol=1e-8, atol=1e-10) or not np.allclose(lf.gradient(xx), gr, rtol=1e-8, atol=1e-10)
+            if Hs is not None:
+                bad = bad or not np.allclose(Hs, href, rtol=1e-8, atol=1e-9)
+            if bad:
+                ctx.violate(f"C12/wre/two-objects-same-point/{'first' if which == 0 else 'second'}",
+                            f"{tag}: object #{which + 1} (different model, identical variable point): gradient/Hessian differ from "
+                            f"-Aᵀ(q/p), Aᵀdiag(q/p²)A of its own model by {np.abs(gr - gref).max():.3e}", rep)
+    # --- (2c) ONE fast object evaluated repeatedly: value → gradient → value → gradient at a sequence of points
+    A0, b0 = qt.calc_matA().copy(), qt.calc_vecB().copy()
+    pts = [xp, (xp + _mixed_var(qt)) / 2, xp]
+    for lname, lfast, lgen in (("fast-wre", FWRE(nv, prob_dists_q=qs), WRE(nv, prob_dists_q=qs)),
+                               ("fast-wse", fast_wse(qt, data, None), generic_wse(qt, data, None))):
+        for l_ in (lfast, lgen):
+            l_.set_func_prob_dists_from_standard_qt(qt); l_.set_func_gradient_prob_dists_from_standard_qt(qt)
+        okseq = True
+        for step, xs_ in enumerate(pts):
+            if float((A0 @ xs_ + b0).min()) <= 0.02 and lname == "fast-wre":
+                continue
+            for what in ("value", "gradient"):
+                a_ = np.atleast_1d(getattr(lfast, what)(xs_)); r_ = np.atleast_1d(getattr(lgen, what)(xs_))
+                if not np.allclose(a_, r_, rtol=1e-9, atol=1e-11):
+                    ctx.violate(f"C12/{lname}/evaluation-sequence", f"{tag}: {what} #{step + 1} on one fast object differs from the generic loss "
+                                f"by {np.abs(a_ - r_).max():.3e} (earlier evaluations changed the object)", rep)
+                    okseq = False
+                    break
+            if not okseq:
+                break
+        if not np.array_equal(lfast._matA, A0) or not np.array_equal(lfast._vecB, b0):
+            ctx.violate(f"C12/{lname}/model-matrix-mutated", f"{tag}: the cached matA/vecB of the fast loss changed during value/gradient evaluations "
+                        f"(max change {np.abs(lfast._matA - A0).max():.3e})", rep)
     # --- (3) every weighting mode takes effect, generic == fast after configuration through the option
     for mode in MODES:
         Wc = sym_weights(g, S, mm) if mode == "custom" else None
@@ -499,6 +565,7 @@ def check_conf(ctx, kind, flag, m, salt):
     # relative entropy: custom weights given through the option
     if min(float(np.min(p)) for p in pb) > 0.02:
         wopt = [float(v) for v in g.integers(2, 6, size=S)]
+        wopt[int(g.integers(0, S))] = 0.0
         ref = sum(wopt[j] * sum(fi * math.log(fi / pi) for fi, pi in zip(f, p) if fi > 0) for j, (p, f) in enumerate(zip(pb, qs)))
         for name, cls, ocls in (("generic", WRE, WREO), ("fast", FWRE, FWREO)):
             l = cls(nv)
